@@ -125,3 +125,55 @@ fn d6_cooling_factor_reaches_kt_finish() {
 fn d5_group_label_is_the_requested_group() {
     assert_eq!(get_wallpaper_group(WallpaperGroups::p1g1).unwrap().name, "p1g1");
 }
+
+/// D9 (C13/C03, KNOWN FINDING, not fixed): the pair energy uses the first particle's sigma only, so it is not
+/// symmetric in the two particles when they are unlike (trimer with radius != 1).
+#[test]
+fn d9_pair_energy_is_symmetric() {
+    use packing::traits::Potential;
+    use packing::LJ2;
+    let a = LJ2::new(0., 0., 2.0);
+    let b = LJ2::new(2., 0., 1.275112);
+    assert_eq!(a.energy(&b), b.energy(&a));
+}
+
+/// D1 (C01/C02): the number of image shells searched for overlaps was a heuristic on the cell's aspect ratio and
+/// angle; in a flat, skewed cell a linear trimer (CLI: trimer --radius 1 --angle 180 --distance 1.9) overlaps its own
+/// image four cells away, yet the state reports a score — here a "packing fraction" above 1.
+#[test]
+fn d1_scored_state_has_no_overlap_with_distant_images() {
+    use packing::{MolecularShape2, PackedState};
+    let wg = get_wallpaper_group(WallpaperGroups::p1).unwrap();
+    let st = PackedState::from_group(MolecularShape2::from_trimer(1.0, 180., 1.9), &wg).unwrap();
+    let mut basis = st.generate_basis();
+    let params = [8.59967345671266, 0.23833076514190515, 0.5551091400192223, -0.2866407470727914, -0.4567910057714848, 1.6714100653528436];
+    for (b, p) in basis.iter_mut().zip(params.iter()) { b.set_value(*p); }
+    // independent check over 8 shells
+    let t1 = st.cartesian_positions().next().unwrap();
+    let s1 = st.shape.transform(&t1);
+    let p = st.relative_positions().next().unwrap();
+    let overlap = st.cell.periodic_images(p, 8, false).any(|t2| s1.intersects(&st.shape.transform(&t2)));
+    assert!(overlap, "the witness state really overlaps an image");
+    assert!(st.score().is_none(), "state with overlapping images reports score {:?}", st.score());
+}
+
+/// D3a (C03): pairs within the cell are counted once but pairs across a cell face twice, so two descriptions of the
+/// same p2 crystal (origin shifted to the other inversion centre) score differently.
+#[test]
+fn d3a_lj_score_is_a_property_of_the_crystal() {
+    use packing::{LJShape2, PotentialState};
+    let wg = get_wallpaper_group(WallpaperGroups::p2).unwrap();
+    let score_at = |x: f64| {
+        let st = PotentialState::from_group(LJShape2::circle(), &wg).unwrap();
+        let mut basis = st.generate_basis();
+        // cell: length 3, ratio 1, angle pi/2; site (x, 0), orientation 0
+        let params = [3.0, 1.0, std::f64::consts::PI / 2., x, 0., 0.];
+        for (b, p) in basis.iter_mut().zip(params.iter()) { b.set_value(*p); }
+        st.score().unwrap()
+    };
+    // copies at +-(0.3, 0) (0.6 apart in the cell, 0.4 across the face)  vs  the same crystal described from the
+    // inversion centre at (1/2, 0): copies at +-(0.2, 0) (0.4 apart in the cell, 0.6 across the face)
+    let (s1, s2) = (score_at(0.3), score_at(-0.2));
+    // the potential of a circle is uncut: the two descriptions agree up to the convergence error of the 3-shell sum
+    assert!((s1 - s2).abs() < 1e-4 * s1.abs(), "same crystal, scores {} and {}", s1, s2);
+}
